@@ -126,25 +126,23 @@ found:
 		return errors.New("index: attempt to add record out of position sort order")
 	}
 	i.LastRecord = r.Start()
-	eiv := r.End() / TileWidth
-	if eiv == len(ref.Intervals) {
-		if eiv > biv {
-			panic("index: unexpected alignment length")
-		}
-		ref.Intervals = append(ref.Intervals, c.Begin)
-	} else if eiv > len(ref.Intervals) {
-		intvs := make([]bgzf.Offset, eiv)
-		if len(ref.Intervals) > biv {
-			biv = len(ref.Intervals)
-		}
-		for iv, offset := range intvs[biv:eiv] {
-			if !isZero(offset) {
-				panic("index: unexpected non-zero offset")
-			}
-			intvs[iv+biv] = c.Begin
-		}
+	// The alignment covers the tiles holding [Start, End); End is
+	// exclusive, so the last tile is the one holding End-1. Every
+	// covered tile that has no offset yet gets the offset of this
+	// record, the first to overlap it.
+	eiv := (r.End() - 1) / TileWidth
+	if eiv < biv {
+		eiv = biv
+	}
+	if eiv >= len(ref.Intervals) {
+		intvs := make([]bgzf.Offset, eiv+1)
 		copy(intvs, ref.Intervals)
 		ref.Intervals = intvs
+	}
+	for iv := biv; iv <= eiv; iv++ {
+		if isZero(ref.Intervals[iv]) {
+			ref.Intervals[iv] = c.Begin
+		}
 	}
 
 	// Record index stats.
